@@ -31,6 +31,9 @@
  *   SHMFAIL <n>        the next n shm_open(O_CREAT) calls fail with ENOSPC (allocate_shmem_buffer)  -> "SHMFAIL"
  *   PSTATE             ring of the current thread -> "P nr_buf curr losts done [flag size]..."
  *   BASE               address of f0 -> "BASE <addr>";   TID -> "TID <tid of the current thread>"
+ *   VALX <name> <v>    (C17) unsigned 64-bit knobs: statm_on statm0 statm1 statm2 (pages, faked /proc/self/statm),
+ *                      pmu_on cycle0 cycle1 cache0 cache1 branch0 branch1 (faked perf_event_open group reads)
+ *   AUTOSTATE 2        like AUTOSTATE 1 plus an "XS nr_events watch_inited watch_cpu" line after every hook
  *   QUIT
  *
  * A call whose entry returned -1 (not hooked) must not be followed by X for that call:
@@ -102,6 +105,71 @@ int shm_open(const char *name, int oflag, mode_t mode)
 		return -1;
 	}
 	return real_shm_open(name, oflag, mode);
+}
+
+/* ---- C17: /proc/self/statm and perf_event_open group reads, faked only while the knobs are on */
+#include <dlfcn.h>
+#include <stdarg.h>
+#include <linux/perf_event.h>
+volatile int verif_statm_on, verif_pmu_on;
+volatile uint64_t verif_statm[3];
+volatile uint64_t verif_pmu[6]; /* cycles instrs cache-refs cache-misses branches branch-misses */
+#define MAXFAKEFD 1024
+static signed char fakefd_kind[MAXFAKEFD]; /* 0 = real fd, 1 + leader config otherwise (libmcount wraps close()
+					    * itself: entries are overwritten when the number is handed out again) */
+
+FILE *fopen(const char *path, const char *mode)
+{
+	static FILE *(*real)(const char *, const char *);
+	if (verif_statm_on && path && !strcmp(path, "/proc/self/statm")) {
+		static __thread char buf[128];
+		snprintf(buf, sizeof(buf), "%llu %llu %llu 0 0 0 0\n", (unsigned long long)verif_statm[0],
+			 (unsigned long long)verif_statm[1], (unsigned long long)verif_statm[2]);
+		return fmemopen(buf, strlen(buf), "r");
+	}
+	if (!real)
+		real = dlsym(RTLD_NEXT, "fopen");
+	return real(path, mode);
+}
+
+long syscall(long nr, ...)
+{
+	static long (*real)(long, ...);
+	long a[6];
+	va_list ap;
+	int i;
+	va_start(ap, nr);
+	for (i = 0; i < 6; i++)
+		a[i] = va_arg(ap, long);
+	va_end(ap);
+	if (nr == SYS_perf_event_open && verif_pmu_on) {
+		struct perf_event_attr *attr = (void *)a[0];
+		int group_fd = (int)a[3];
+		int fd = open("/dev/null", O_RDONLY);
+		if (fd >= 0 && fd < MAXFAKEFD)
+			fakefd_kind[fd] = group_fd < 0 ? 1 + (int)attr->config : 100;
+		return fd;
+	}
+	if (!real)
+		real = dlsym(RTLD_NEXT, "syscall");
+	return real(nr, a[0], a[1], a[2], a[3], a[4], a[5]);
+}
+
+ssize_t read(int fd, void *buf, size_t n)
+{
+	static ssize_t (*real)(int, void *, size_t);
+	if (fd >= 0 && fd < MAXFAKEFD && fakefd_kind[fd] > 0 && fakefd_kind[fd] < 100 && n >= 24) {
+		uint64_t v[3];
+		int k = fakefd_kind[fd] - 1; /* leader config: 0 cycles, 2 cache-references, 4 branches */
+		v[0] = 2;
+		v[1] = verif_pmu[k];
+		v[2] = verif_pmu[k + 1];
+		memcpy(buf, v, 24);
+		return 24;
+	}
+	if (!real)
+		real = dlsym(RTLD_NEXT, "read");
+	return real(fd, buf, n);
 }
 
 /* ------------------------------------------------------------------ traced "functions" */
@@ -269,6 +337,8 @@ static void print_state(void)
 #else
 	printf("S 0 0 0 0 0 0 %d %d 1\n", mtd.idx, mtd.record_idx);
 #endif
+	if (autostate == 2)
+		printf("XS %d %d %d\n", mtd.nr_events, (int)mtd.watch.inited, mtd.watch.cpu);
 }
 
 static void do_op(struct drv *dv, char *line)
@@ -467,6 +537,24 @@ static void do_op(struct drv *dv, char *line)
 			munmap(b, st.st_size);
 		}
 		printf("\n");
+	}
+	else if (!strcmp(op, "VALX")) {
+		char nm[32];
+		unsigned long long v = 0;
+		static const char *const pn[] = { "cycle0", "cycle1", "cache0", "cache1", "branch0", "branch1" };
+		int i;
+		sscanf(line, "%*s %31s %llu", nm, &v);
+		if (!strcmp(nm, "statm_on"))
+			verif_statm_on = v;
+		else if (!strcmp(nm, "pmu_on"))
+			verif_pmu_on = v;
+		else if (!strncmp(nm, "statm", 5) && nm[5] >= '0' && nm[5] <= '2')
+			verif_statm[nm[5] - '0'] = v;
+		else
+			for (i = 0; i < 6; i++)
+				if (!strcmp(nm, pn[i]))
+					verif_pmu[i] = v;
+		printf("VALX\n");
 	}
 	else
 		printf("? %s\n", op);
